@@ -21,7 +21,10 @@ META = {
     "level": "exploration",
     "rule": ("case = {program AST, injection kind, site}; distinct by JSON; non-trivial when the program has >= 6 "
              "statements and the injection site is nested (depth >= 1)"),
-    "required": ["monitor:injection"] + [f"kind:{k}" for k in KINDS] + ["feature:site-depth-0",
+    "required": ["monitor:injection"] + [f"kind:{k}" for k in KINDS] + ["variant:case-index-negative", "variant:case-index-too-large",
+                                                                         "variant:disagree-through-if-else",
+                                                                         "variant:exit-through-branch",
+                                                                         "feature:site-depth-0",
                                                                          "feature:site-depth-1",
                                                                          "feature:site-depth-2+"],
     "reach": ["hugr.build.dfg:DfBase._wire_up_port", "hugr.build.cfg:Block._wire_up_port",
@@ -29,7 +32,6 @@ META = {
               "hugr.build.cfg:Cfg.branch_exit", "hugr.build.dfg:Function.set_outputs", "hugr.ops:_check_complete",
               "hugr.build.dfg:DfBase._fn_sig", "hugr.build.tracked_dfg:TrackedDfg.tracked_wire"],
     "assumptions": [
-        "negative case indices are not injected (Python-style negative indexing vs 'out of range' is not stated)",
         "inside a basic block only 'source outside the enclosing CFG' is injected: the Block builder documents that "
         "relations inside the CFG are left to full validation",
         "the state of the HUGR after a refused call is not judged",
@@ -51,6 +53,7 @@ class Verdict(Exception):
 
 
 LAST = {"verdict": None, "stop": None, "skip": False}
+COUNT: dict = {}   # variants actually injected (reported as features by run_case)
 
 
 def expect(fn, exc, where):
@@ -265,7 +268,9 @@ def make_interp(kind, site):
         def inj_case_outputs_disagree(self, where, st, case_b=None, i=None, outs=None, **kw):
             if where != "case" or st["mode"] == "ifelse" and False:
                 return False
-            order = st["order"]
+            order = [1, 0] if st["mode"] == "ifelse" else st["order"]
+            if st["mode"] == "ifelse":
+                COUNT["disagree-through-if-else"] = COUNT.get("disagree-through-if-else", 0) + 1
             if i == order[0] or len(order) < 2:
                 if len(order) < 2:
                     self.skipped = "single-case conditional"
@@ -284,7 +289,11 @@ def make_interp(kind, site):
                 return False
             self.injected = True
             n = len(st["cases"])
-            expect(lambda: c.add_case(n + (sum(map(ord, st["id"])) % 3)), ConditionalError, "add_case(out of range)")
+            # a case index is a variant tag in [0, n): too large and negative ones are both out of range
+            k = [n, n + 1, n + 2, -1, -n, -n - 1][sum(map(ord, st["id"])) % 6]
+            self_kind = "negative" if k < 0 else "too-large"
+            COUNT[f"case-index-{self_kind}"] = COUNT.get(f"case-index-{self_kind}", 0) + 1
+            expect(lambda: c.add_case(k), ConditionalError, f"add_case({self_kind} index)")
 
         def inj_case_twice(self, where, st, c=None, build_case=None, **kw):
             if where != "cond":
@@ -346,8 +355,14 @@ def make_interp(kind, site):
                 raise _Skip()
             self.injected = True
             a, c = pair
-            cfg.branch_exit(built[a[0]][a[1]])
-            expect(lambda: cfg.branch_exit(built[c[0]][c[1]]), MismatchedExit, "branch_exit")
+            # both spellings of a branch to the exit: branch_exit(src) and branch(src, cfg.exit)
+            v = sum(map(ord, st["id"])) % 4
+            (cfg.branch_exit(built[a[0]][a[1]]) if v & 1 else cfg.branch(built[a[0]][a[1]], cfg.exit))
+            if v & 2:
+                COUNT["exit-through-branch"] = COUNT.get("exit-through-branch", 0) + 1
+                expect(lambda: cfg.branch(built[c[0]][c[1]], cfg.exit), MismatchedExit, "branch(src, exit)")
+            else:
+                expect(lambda: cfg.branch_exit(built[c[0]][c[1]]), MismatchedExit, "branch_exit")
 
         def inj_cfg_no_exit_serialize(self, where, st, cfg=None, **kw):
             if where != "cfg":
@@ -471,6 +486,8 @@ def run_case(ctx, case, stratum="inject"):
             ok, expected, observed, where = False, "IncompleteOp", f"{type(e).__name__}: {str(e)[:120]}", "to_json"
     ctx.count("monitor:injection")
     ctx.count("kind:" + kind)
+    for k2 in list(COUNT):
+        ctx.count("variant:" + k2, COUNT.pop(k2))
     if not ok:
         ctx.disc(None, f"not-refused[{kind}]", where, expected, observed, stratum=stratum, case=case)
     return True
@@ -540,8 +557,7 @@ def run(ctx):
                 ss = [s for s in ss if s[3].get("in_block")]
             if kind in ("case-outputs-disagree",):
                 ss = [s for s in ss if s[3].get("ncases", 0) >= 2]
-            if kind in ("case-twice", "case-index-out-of-range", "ctx-exit-unbuilt", "case-outputs-disagree",
-                        "cond-unbuilt-serialize"):
+            if kind in ("case-twice", "case-index-out-of-range", "ctx-exit-unbuilt", "cond-unbuilt-serialize"):
                 ss = [s for s in ss if s[3].get("mode") != "ifelse"]
             if kind == "ctx-exit-unbuilt":
                 ss = [s for s in ss if s[3].get("ncases", 0) >= 1]
